@@ -447,6 +447,45 @@ func units(tier string) []runner.Unit {
 								}
 							}
 						}
+						// whole groups of non-data positions flipped at once: the padding outside the mask
+						// of one chunk, the unused selected positions of a partial last chunk, and both
+						{
+							c8 := len(enc) / 8
+							initial := uint64(half)<<32 | uint64(half)
+							for k := 0; k < c8; k++ {
+								mask := refRot(initial, rot, k)
+								nData := c * 8
+								if k == c8-1 && n%c != 0 {
+									nData = (n % c) * 8
+								}
+								var outside, unused uint64
+								seen := 0
+								for bit := 0; bit < 64; bit++ {
+									if mask>>uint(bit)&1 == 0 {
+										outside |= 1 << uint(bit)
+									} else {
+										if seen >= nData {
+											unused |= 1 << uint(bit)
+										}
+										seen++
+									}
+								}
+								for _, grp := range []uint64{outside, unused, outside | unused} {
+									if grp == 0 {
+										continue
+									}
+									wg := append([]byte(nil), wire...)
+									for j := 0; j < 8; j++ {
+										wg[k*8+j] ^= byte(grp >> uint(56-8*j))
+									}
+									// flipping *every* non-data position of *every* chunk is the other polarity: only
+									// reject the cases that leave the body mixed
+									if !canonical(wg, n, rot, "group corruption") {
+										return
+									}
+								}
+							}
+						}
 						if u.Expired() {
 							u.NotExhaustive("budget")
 							goto meta
